@@ -12,7 +12,7 @@ use std::cell::Cell;
 use std::io::{self, Read};
 use std::rc::Rc;
 
-use crate::gen::{gen_doc, to_yaml, GenOpts, Spelling};
+use crate::gen::{gen_doc, spell_checked, GenOpts, Spelling};
 use crate::out::Out;
 use crate::util::{catch, hex, Rng, SchedReader};
 use crate::xtapi::Fmt;
@@ -193,26 +193,58 @@ const SEPARATORS: &[&str] = &[
 	"...\n%YAML 1.2\n---\n",
 	"# c\n---\n",
 	"--- ",
-	"...\n",
 	"...\n...\n---\n",
 	"---\n---\n",
-	"...\n  ",
-	"...\n ",
-	"...\n# c\n   ",
-	"... \n    ",
 	"---  ",
+	"---\n  ",
+	"--- # c\n ",
 ];
-const MALFORMED: &[&str] = &["a: [1, 2\n", "a: b: c\n", "\t- x\n", "{a: 1\n", "- \"unterminated\n", "a: *\n", "%BAD\n", "a: 1\n b: 2\n", "&a &b c\n", "\u{1}\n", "x: \u{0}\n", "[a, b]]\n"];
+const MALFORMED: &[&str] = &["x\n...\n  y\n", "x\n...\ny\n", "a: [1, 2\n", "a: b: c\n", "\t- x\n", "{a: 1\n", "- \"unterminated\n", "a: *\n", "%BAD\n", "a: 1\n b: 2\n", "&a &b c\n", "\u{1}\n", "x: \u{0}\n", "[a, b]]\n"];
 
 fn one_doc(rng: &mut Rng) -> String {
 	match rng.below(10) {
 		0..=4 => rng.pick(HAND_DOCS).to_string(),
 		_ => {
 			let opts = GenOpts::cdm().for_formats(&[Fmt::Yaml]);
-			let v = gen_doc(rng, &opts);
-			let sp = if rng.chance(1, 2) { Spelling::plain() } else { Spelling::random(rng) };
-			to_yaml(&v, &sp).unwrap_or_else(|| "fallback: 1\n".to_string())
+			for _ in 0..4 {
+				let v = gen_doc(rng, &opts);
+				let sp = if rng.chance(1, 2) { Spelling::plain() } else { Spelling::random(rng) };
+				// Self-checked with serde_yaml: the text is one document denoting `v`.
+				if let Some(b) = spell_checked(Fmt::Yaml, &v, &sp) {
+					if let Ok(t) = String::from_utf8(b) {
+						return t;
+					}
+				}
+			}
+			"fallback: 1\n".to_string()
 		}
+	}
+}
+
+/// Puts `doc` after `lead` so that the result stays well-formed when `lead`
+/// ends in spaces: on a fresh line the whole document is indented by that
+/// many spaces; on the `---` line only a one-line flow / scalar document may
+/// follow.
+fn place(lead: &str, doc: &str) -> String {
+	let k = lead.len() - lead.trim_end_matches(' ').len();
+	if k == 0 {
+		return format!("{lead}{doc}");
+	}
+	let head = &lead[..lead.len() - k];
+	if head.is_empty() || head.ends_with('\n') {
+		let pad = " ".repeat(k);
+		let mut s = head.to_string();
+		for line in doc.split_inclusive('\n') {
+			s.push_str(&pad);
+			s.push_str(line);
+		}
+		return s;
+	}
+	let one_line = doc.matches('\n').count() <= 1 && !doc.contains(": ") && !doc.starts_with("- ") && !doc.starts_with('?') && !doc.starts_with('|') && !doc.starts_with('>');
+	if one_line {
+		format!("{lead}{doc}")
+	} else {
+		format!("{}\n{doc}", head.trim_end())
 	}
 }
 
@@ -263,11 +295,13 @@ pub fn gen_stream(rng: &mut Rng, max_docs: u64, malformed: bool) -> Stream {
 	let bad_at = if malformed { rng.below(docs.max(1) as u64) as usize } else { usize::MAX };
 	let mut text = String::new();
 	for i in 0..docs {
-		text.push_str(if i == 0 { *rng.pick(FIRST_INTRO) } else { *rng.pick(SEPARATORS) });
+		let lead = if i == 0 { *rng.pick(FIRST_INTRO) } else { *rng.pick(SEPARATORS) };
 		if i == bad_at {
+			text.push_str(lead);
 			text.push_str(*rng.pick(MALFORMED));
 		} else {
-			text.push_str(&one_doc(rng));
+			let doc = if docs > 20 { rng.pick(HAND_DOCS).to_string() } else { one_doc(rng) };
+			text.push_str(&place(lead, &doc));
 		}
 	}
 	if docs == 0 {
@@ -291,6 +325,7 @@ fn straddling_stream(rng: &mut Rng, boundary: usize, delta: i64) -> String {
 	text.push_str(&sized_doc(rng, len));
 	text.push_str(*rng.pick(&["---\n", "...\n---\n", "--- # c\n"]));
 	text.push_str(&one_doc(rng));
+	let _ = place;
 	if rng.chance(1, 2) {
 		text.push_str("---\n");
 		let len = rng.range(8, 9000) as usize;
@@ -354,6 +389,9 @@ fn stream_case(out: &mut Out, rng: &mut Rng, bytes: &[u8], fail_at: Option<usize
 	let answer = real_chunks(Box::new(SchedReader::new(bytes, sched_b, true, fail_at)));
 	let ndocs = answer.matches("doc:").count();
 	out.count(&format!("docs_returned.{}", match ndocs { 0 => "0", 1 => "1", 2..=5 => "2-5", 6..=50 => "6-50", _ => "51+" }));
+	if ndocs > 0 && !trace.1 {
+		out.count("stream.complete_with_documents");
+	}
 	let nontrivial = ndocs > 0 || trace.1;
 	out.case("chunker", &format!("{} {}", trace_field(&trace, None), hex(seen)), &answer, nontrivial);
 	// The same trace with the tightest read offsets: the answer may not depend
@@ -453,14 +491,14 @@ pub fn run(out: &mut Out, rng: &mut Rng, thorough: bool) {
 	// 1. Fixed small streams: every intro x every hand document x every separator.
 	for intro in FIRST_INTRO {
 		for doc in HAND_DOCS {
-			let text = format!("{intro}{doc}");
+			let text = place(intro, doc);
 			stream_case(out, rng, text.as_bytes(), None, "fixed");
 		}
 	}
 	for sep in SEPARATORS {
 		for (i, doc) in HAND_DOCS.iter().enumerate() {
 			let other = HAND_DOCS[(i * 7 + 3) % HAND_DOCS.len()];
-			let text = format!("{other}{sep}{doc}");
+			let text = format!("{other}{}", place(sep, doc));
 			stream_case(out, rng, text.as_bytes(), None, "fixed");
 		}
 	}
